@@ -25,7 +25,7 @@ PROPS = {
     'C15': {'units': ['shape', 'openin'], 'kani': [], 'only': {'openin': r'per_matrix_shape_and_grouping|compute_single_reduced_opening|height_group'}},
     'C13': {'units': ['sym', 'symx'], 'kani': []},
     'C09': {'units': ['prep', 'mult', 'pread'], 'kani': []},
-    'C08': {'units': ['mmcs', 'hash', 'mbind', 'vbatch'], 'kani': []},
+    'C08': {'units': ['mmcs', 'hash', 'mbind', 'vbatch', 'vbatchx'], 'kani': []},
     'C16': {'units': ['meta', 'vrfy', 'serde16'], 'kani': []},
     'C11': {'units': ['air', 'alu', 'run19', 'tracegen'], 'kani': [], 'only': {'run19': r'execute_alu_op'}},
 }
